@@ -122,8 +122,14 @@ impl Prop for C07 {
         tier.pick(200_000, 3_000_000)
     }
     fn strategy(&self, _tier: Tier) -> BoxedStrategy<Case> {
-        (full_site(), full_spec(), gen::weather_opt(), gen::date(), prop_oneof![30 => Just(None), 1 => (0u8..7).prop_map(Some)])
-            .prop_map(|(site, spec, weather, date, boundary_probe)| Case { site, spec, weather, date, boundary_probe })
+        (full_site(), full_spec(), gen::weather_opt(), gen::date(), prop_oneof![30 => Just(None), 1 => (0u8..7).prop_map(Some)], 0u8..40)
+            .prop_map(|(site, mut spec, weather, date, boundary_probe, k)| {
+                // one case in 40: the substitute latitude is exactly the site's own latitude
+                if k == 0 {
+                    spec.policy_lat = site.lat;
+                }
+                Case { site, spec, weather, date, boundary_probe }
+            })
             .boxed()
     }
     fn watchdog(&self) -> Option<Duration> {
